@@ -375,13 +375,15 @@ def rule_ray_walk(ctx):
         ds = {ray_ref(ix, t)[0] for t in or_terms(init)} if init else set()
         ctx.check(ds == set(dirs), "%s:walk:starts-from-all-rays" % piece, "attacks starts as the union of the four rays from the square", b.where(0), bad_what="attacks starts from %s" % sorted(map(str, ds)))
     # the scans
-    for fn, intr in (("bitscan_forward_helper", "trailing_zeros"), ("bitscan_reverse_helper", "leading_zeros")):
+    for fn, intrs in (("bitscan_forward_helper", ("trailing_zeros",)), ("bitscan_reverse_helper", ("leading_zeros", "ilog2"))):
         hb = ctx.body("board::bitboard::Bitboard::" + fn)
-        ctx.check(any(callee_is(t, "*::" + intr) for _b, t in hb.calls()), "bitboard:%s" % fn, "%s uses %s" % (fn, intr), hb.where(0), bad_what="%s does not use %s" % (fn, intr))
+        ctx.check(any(callee_is(t, *["*::" + i for i in intrs]) for _b, t in hb.calls()), "bitboard:%s" % fn, "%s uses %s" % (fn, " / ".join(intrs)), hb.where(0), bad_what="%s does not use %s" % (fn, " / ".join(intrs)))
     rv = ctx.body("board::bitboard::Bitboard::bitscan_reverse_helper")
     rsym = ctx.sym(rv)
     r = rsym.local(0)
-    ok = r[0] == "bin" and r[1].startswith("Sub") and r[2] == ("const", 63, "u32") and r[3][0] == "call" and r[3][1].endswith("leading_zeros")
+    word = lambda a: a[0] == "field" and a[-1] == "0" and mir.strip_refs(a[1]) == ("arg", "self")  # noqa: E731
+    ok = (r[0] == "bin" and r[1].startswith("Sub") and r[2] == ("const", 63, "u32") and r[3][0] == "call" and r[3][1].endswith("leading_zeros") and word(r[3][2][0])) or \
+         (r[0] == "call" and r[1].endswith("<impl u64>::ilog2") and word(r[2][0]))  # ilog2(x) = 63 - lz(x) for x != 0
     ctx.check(ok, "bitboard:bitscan_reverse-is-63-minus-lz", "bitscan_reverse = 63 - leading_zeros (index of the highest set bit)", rv.where(0), bad_what="bitscan_reverse computes `%s`" % expr_str(r))
     for fn in ("bitscan_forward", "bitscan_reverse"):
         wb = ctx.body("board::bitboard::Bitboard::" + fn)
